@@ -10,26 +10,29 @@ Local Open Scope Z_scope.
 
 (* ================= 1. the frame of code run in another process ================= *)
 Definition kpost (k : Z) (w w' : world) : Prop :=
-  keeps k w w' /\ w_cur w' = w_cur w /\ exists l, w_trace w' = l ++ w_trace w.
+  keeps k w w' /\ w_cur w' = w_cur w /\ w_next_blk w <= w_next_blk w' /\ exists l, w_trace w' = l ++ w_trace w.
 Lemma kpost_refl k w : kpost k w w.
-Proof. split; [apply keeps_refl|]. split; [reflexivity|exists []; reflexivity]. Qed.
+Proof. split; [apply keeps_refl|]. split; [reflexivity|]. split; [lia|exists []; reflexivity]. Qed.
 Lemma kpost_trans k w1 w2 w3 : kpost k w1 w2 -> kpost k w2 w3 -> kpost k w1 w3.
 Proof.
-  intros (K2 & C2 & l2 & T2) (K3 & C3 & l3 & T3). split; [eapply keeps_trans; eassumption|]. split; [congruence|].
-  exists (l3 ++ l2). rewrite T3, T2, app_assoc. reflexivity.
+  intros (K2 & C2 & N2 & l2 & T2) (K3 & C3 & N3 & l3 & T3). split; [eapply keeps_trans; eassumption|]. split; [congruence|].
+  split; [lia|]. exists (l3 ++ l2). rewrite T3, T2, app_assoc. reflexivity.
 Qed.
 Lemma keeps_same_procs k w w' : w_procs w' = w_procs w -> w_next_pid w' = w_next_pid w -> keeps k w w'.
 Proof. intros Hp Hn. unfold keeps. rewrite Hp, Hn. repeat split; auto; lia. Qed.
 Lemma kpost_same k w w' : w_procs w' = w_procs w -> w_next_pid w' = w_next_pid w -> w_cur w' = w_cur w ->
+  w_next_blk w' = w_next_blk w ->
   (exists l, w_trace w' = l ++ w_trace w) -> kpost k w w'.
-Proof. intros Hp Hn Hc Ht. split; [apply keeps_same_procs; assumption|]. split; assumption. Qed.
+Proof. intros Hp Hn Hc Hb Ht. split; [apply keeps_same_procs; assumption|]. split; [assumption|]. split; [lia|assumption]. Qed.
+Lemma blk_upd_proc pid f w : w_next_blk (upd_proc pid f w) = w_next_blk w.
+Proof. unfold upd_proc. destruct (w_procs w !! pid); reflexivity. Qed.
 Lemma cur_upd_proc pid f w : w_cur (upd_proc pid f w) = w_cur w.
 Proof. unfold upd_proc. destruct (w_procs w !! pid); reflexivity. Qed.
 Lemma trace_upd_proc pid f w : w_trace (upd_proc pid f w) = w_trace w.
 Proof. unfold upd_proc. destruct (w_procs w !! pid); reflexivity. Qed.
 Lemma kpost_upd_proc k pid f w : pid <> k -> kpost k w (upd_proc pid f w).
 Proof.
-  intros H. split; [apply keeps_upd_proc; exact H|]. split; [apply cur_upd_proc|]. exists []. apply trace_upd_proc.
+  intros H. split; [apply keeps_upd_proc; exact H|]. split; [apply cur_upd_proc|]. split; [rewrite blk_upd_proc; lia|]. exists []. apply trace_upd_proc.
 Qed.
 
 Definition kp {A} (k : Z) (m : MW A) : Prop :=
@@ -41,7 +44,7 @@ Lemma kp_bind {A B} k (m : MW A) (f : A -> MW B) : kp k m -> (forall a, kp k (f 
 Proof.
   intros Hm Hf w Hc L. unfold bind. specialize (Hm w Hc L).
   destruct (m w) as [a w1|w1|w1|y w1]; cbn [oworld] in *; try exact Hm.
-  pose proof Hm as (K1 & C1 & _).
+  pose proof Hm as (K1 & C1 & _ & _).
   pose proof (Hf a w1 ltac:(congruence) (lib_at_keeps _ _ _ L K1)) as H2.
   eapply kpost_trans; eassumption.
 Qed.
@@ -74,8 +77,8 @@ Proof.
   assert (K0 : kpost k w w0) by (apply kpost_same; try reflexivity; exists []; reflexivity).
   destruct (advance_to _ w0) as [w2|] eqn:E; cbn [oworld]; [|exact K0].
   pose proof (keeps_advance_to k _ _ _ (lib_at_keeps _ _ _ L (proj1 K0)) E) as K.
-  pose proof (flat_advance_to _ _ _ E) as F. unfold flat in F. injection F as Ft Fc _ _ _ _ _ _ _ _.
-  eapply kpost_trans; [exact K0|]. split; [exact K|]. split; [exact Fc|]. exists []. exact Ft.
+  pose proof (flat_advance_to _ _ _ E) as F. unfold flat in F. injection F as Ft Fc _ _ _ _ _ Fb _ _.
+  eapply kpost_trans; [exact K0|]. split; [exact K|]. split; [exact Fc|]. split; [rewrite Fb; apply Z.le_refl|]. exists []. exact Ft.
 Qed.
 Lemma kp_fail k c a s e : kp k (fail c a s e).
 Proof. unfold fail. apply kp_bind; [apply kp_set_errno|]. intros _. apply kp_bind; [apply kp_log|]. intros _. apply kp_ret. Qed.
@@ -139,9 +142,9 @@ Proof.
   destruct (f_obj d) as [q|q|a|pa a|id a]; try apply kp_fail; try apply kp_done.
   intros w Hc L.
   destruct (write_loop_frame k (Z.to_nat (runs_len data / pipe_atomic) + total_weight w * 2 + 8)%nat q (f_nonblock d) data 0 w L) as [K F].
-  unfold flat in F. injection F as Ft Fc _ _ _ _ _ _ _ _.
+  unfold flat in F. injection F as Ft Fc _ _ _ _ _ Fb _ _.
   assert (K1 : kpost k w (wr_world (write_loop (Z.to_nat (runs_len data / pipe_atomic) + total_weight w * 2 + 8)%nat q (f_nonblock d) data 0 w))).
-  { split; [exact K|]. split; [exact Fc|]. exists []. exact Ft. }
+  { split; [exact K|]. split; [exact Fc|]. split; [rewrite Fb; apply Z.le_refl|]. exists []. exact Ft. }
   destruct (write_loop _ q (f_nonblock d) data 0 w) as [n w1|e w1|w1|w1]; cbn [wr_world oworld] in *; try exact K1.
   - assert (H1 : kp k (log CWrite [fd; runs_len data] [] n [] (w_time w1 - w_time w);> ret n)) by (repeat kp_step).
     eapply kpost_trans; [exact K1|]. apply (H1 w1); [congruence|]. exact (lib_at_keeps _ _ _ L K).
@@ -155,7 +158,7 @@ Proof.
   assert (H1 : kp k (prelude;> log CExit [code] [] 0 [] 0)) by (repeat kp_step).
   specialize (H1 w Hc L).
   destruct ((prelude;> log CExit [code] [] 0 [] 0) w) as [a w1|w1|w1|y w1]; cbn [oworld] in *; try exact H1.
-  eapply kpost_trans; [exact H1|]. unfold kill_proc. apply kpost_upd_proc. destruct H1 as (_ & C1 & _). congruence.
+  eapply kpost_trans; [exact H1|]. unfold kill_proc. apply kpost_upd_proc. destruct H1 as (_ & C1 & _ & _). congruence.
 Qed.
 
 Lemma kp_sys_execvp k prog argv : kp k (sys_execvp prog argv).
@@ -285,13 +288,14 @@ Lemma same_caller_trans p q r : same_caller p q -> same_caller q r -> same_calle
 Proof. intros (A & B & C & D) (A' & B' & C' & D'). repeat split; congruence. Qed.
 
 Definition pcpost (w w' : world) : Prop :=
-  wf w' /\ w_cur w' = w_cur w /\ same_caller (curp w) (curp w') /\ exists l, w_trace w' = l ++ w_trace w.
+  wf w' /\ w_cur w' = w_cur w /\ same_caller (curp w) (curp w') /\ (exists l, w_trace w' = l ++ w_trace w)
+  /\ w_next_blk w <= w_next_blk w'.
 Lemma pcpost_refl w : wf w -> pcpost w w.
-Proof. intros W. split; [exact W|]. split; [reflexivity|]. split; [apply same_caller_refl|exists []; reflexivity]. Qed.
+Proof. intros W. split; [exact W|]. split; [reflexivity|]. split; [apply same_caller_refl|]. split; [exists []; reflexivity|lia]. Qed.
 Lemma pcpost_trans w1 w2 w3 : pcpost w1 w2 -> pcpost w2 w3 -> pcpost w1 w3.
 Proof.
-  intros (W2 & C2 & S2 & l2 & T2) (W3 & C3 & S3 & l3 & T3). split; [exact W3|]. split; [congruence|].
-  split; [eapply same_caller_trans; eassumption|]. exists (l3 ++ l2). rewrite T3, T2, app_assoc. reflexivity.
+  intros (W2 & C2 & S2 & (l2 & T2) & N2) (W3 & C3 & S3 & (l3 & T3) & N3). split; [exact W3|]. split; [congruence|].
+  split; [eapply same_caller_trans; eassumption|]. split; [|lia]. exists (l3 ++ l2). rewrite T3, T2, app_assoc. reflexivity.
 Qed.
 
 Definition pc {A} (m : MW A) : Prop :=
@@ -310,16 +314,22 @@ Lemma pc_get : pc get.
 Proof. intros w W. cbn. apply pcpost_refl, W. Qed.
 Lemma pc_crash {A} y : pc (fun w => Crash (A := A) y w).
 Proof. intros w W. exact I. Qed.
+Lemma prelude_blk w : match prelude w with Ret _ w1 => w_next_blk w1 = w_next_blk w | _ => True end.
+Proof.
+  unfold prelude. cbn zeta. destruct (advance_to _ _) as [w2|] eqn:E; [|exact I].
+  pose proof (flat_advance_to _ _ _ E) as F. unfold flat in F. injection F as _ _ _ _ _ _ _ Fb _ _. exact Fb.
+Qed.
 Lemma pc_prelude : pc prelude.
 Proof.
-  intros w W. pose proof (prelude_spec w W) as H. destruct (prelude w) as [f w1|w1|w1|y w1]; auto.
+  intros w W. pose proof (prelude_spec w W) as H. pose proof (prelude_blk w) as Hb.
+  destruct (prelude w) as [f w1|w1|w1|y w1]; auto.
   destruct H as (W1 & C1 & P1 & T1 & _). split; [exact W1|]. split; [exact C1|]. split; [rewrite P1; apply same_caller_refl|].
-  exists []. exact T1.
+  split; [exists []; exact T1|rewrite Hb; apply Z.le_refl].
 Qed.
 Lemma pc_log c args sargs r outs b : pc (log c args sargs r outs b).
 Proof.
   intros w W. cbn. split; [apply wf_with_trace, W|]. split; [reflexivity|]. split; [apply same_caller_refl|].
-  eexists [_]. reflexivity.
+  split; [eexists [_]; reflexivity|apply Z.le_refl].
 Qed.
 (* an update of the current record that touches neither its kind and state nor the caller's state *)
 Definition mild (f : proc -> proc) : Prop :=
@@ -328,7 +338,7 @@ Lemma pc_modify_cur f : mild f -> pc (modify (upd_cur f)).
 Proof.
   intros Hf w W. cbn. split; [apply wf_upd_cur; [exact W|intros p; split; apply Hf]|].
   split; [unfold upd_cur; apply cur_upd_proc|]. split; [rewrite curp_upd_cur by exact W; apply Hf|].
-  exists []. cbn. unfold upd_cur, upd_proc. destruct (w_procs w !! w_cur w); reflexivity.
+  split; [exists []; unfold upd_cur; rewrite trace_upd_proc; reflexivity|unfold upd_cur; rewrite blk_upd_proc; apply Z.le_refl].
 Qed.
 Lemma mild_errno e : mild (pr_with_errno e).
 Proof. intros p. repeat split. Qed.
@@ -352,12 +362,14 @@ Qed.
 Lemma pc_done c a s r o : pc (done c a s r o).
 Proof. unfold done. apply pc_bind; [apply pc_log|]. intros _. apply pc_ret. Qed.
 (* a world update that leaves the process table, the marker and the trace alone *)
-Lemma pc_modify f : (forall w, w_procs (f w) = w_procs w /\ w_cur (f w) = w_cur w /\ w_next_pid (f w) = w_next_pid w /\ w_trace (f w) = w_trace w) -> pc (modify f).
+Lemma pc_modify f : (forall w, w_procs (f w) = w_procs w /\ w_cur (f w) = w_cur w /\ w_next_pid (f w) = w_next_pid w /\ w_trace (f w) = w_trace w
+                                 /\ w_next_blk w <= w_next_blk (f w)) -> pc (modify f).
 Proof.
-  intros H w W. cbn. destruct (H w) as (Hp & Hc & Hn & Ht).
+  intros H w W. cbn. destruct (H w) as (Hp & Hc & Hn & Ht & Hb).
   split. { destruct W as [Wc Wf]. split; [rewrite Hp, Hc; exact Wc|intros k; rewrite Hp, Hn; apply Wf]. }
-  split; [exact Hc|]. split; [unfold curp, get_proc; rewrite Hp, Hc; apply same_caller_refl|]. exists []. exact Ht.
+  split; [exact Hc|]. split; [unfold curp, get_proc; rewrite Hp, Hc; apply same_caller_refl|]. split; [exists []; exact Ht|exact Hb].
 Qed.
+Ltac mod_ok := intros ?w; repeat split; cbn; lia.
 
 Ltac pc_step :=
   lazymatch goal with
@@ -392,47 +404,74 @@ Proof. apply pc_gets. Qed.
 Lemma pc_sys_pipe : pc sys_pipe.
 Proof.
   unfold sys_pipe. repeat pc_step.
-  apply pc_modify. intros w. repeat split.
+  apply pc_modify. mod_ok.
+Qed.
+Lemma pcpost_heap w h n : wf w -> w_next_blk w <= n -> pcpost w (w_with_heap h n w).
+Proof.
+  intros W Hn. split; [destruct W as [Wc Wf]; split; [exact Wc|exact Wf]|]. split; [reflexivity|].
+  split; [apply same_caller_refl|]. split; [exists []; reflexivity|exact Hn].
 Qed.
 Lemma pc_heap_alloc c args size : pc (heap_alloc c args size).
 Proof.
-  unfold heap_alloc. repeat pc_step.
-  apply pc_modify. intros w. destruct (in_main w); repeat split.
+  unfold heap_alloc. apply pc_bind; [apply pc_prelude|]. intros [e|].
+  { apply pc_bind; [apply pc_set_errno|]. intros _. apply pc_bind; [apply pc_log|]. intros _. apply pc_ret. }
+  intros w W. unfold bind at 1, gets. cbv beta iota.
+  set (f := fun w0 : world => if in_main w0 then w_with_heap (<[w_next_blk w := (true, size)]> (w_heap w0)) (w_next_blk w + 1) w0
+                              else w_with_heap (w_heap w0) (w_next_blk w + 1) w0).
+  assert (P1 : pcpost w (f w)) by (unfold f; destruct (in_main w); apply pcpost_heap; try exact W; lia).
+  assert (H2 : pc (log c args [] (w_next_blk w) [] 0;> ret (w_next_blk w))) by (apply pc_bind; [apply pc_log|intros _; apply pc_ret]).
+  specialize (H2 (f w) ltac:(apply P1)).
+  change ((modify f;> log c args [] (w_next_blk w) [] 0;> ret (w_next_blk w)) w) with ((log c args [] (w_next_blk w) [] 0;> ret (w_next_blk w)) (f w)).
+  destruct ((log c args [] (w_next_blk w) [] 0;> ret (w_next_blk w)) (f w)); auto.
+  exact (pcpost_trans _ _ _ P1 H2).
 Qed.
 Lemma pc_sys_free id : pc (sys_free id).
 Proof.
   unfold sys_free. apply pc_bind; [apply pc_prelude|]. intros _. destruct (id =? 0); [apply pc_log|].
   apply pc_bind; [apply pc_get|]. intros w0.
   destruct (negb (in_main w0)); [apply pc_log|]. destruct (heap_live id w0); [|apply pc_log].
-  apply pc_bind; [|intros _; apply pc_log]. apply pc_modify. intros w. repeat split.
+  apply pc_bind; [|intros _; apply pc_log]. apply pc_modify. mod_ok.
 Qed.
 Lemma pc_sys_realloc id n : pc (sys_realloc id n).
 Proof.
   unfold sys_realloc. apply pc_bind; [apply pc_prelude|]. intros [e|].
   { apply pc_bind; [apply pc_set_errno|]. intros _. apply pc_bind; [apply pc_log|]. intros _. apply pc_ret. }
-  apply pc_bind; [apply pc_get|]. intros w0.
-  destruct (negb (in_main w0)).
-  { apply pc_bind; [apply pc_modify; intros w; repeat split|]. intros _. apply pc_bind; [apply pc_log|]. intros _. apply pc_ret. }
-  destruct ((id =? 0) || heap_live id w0).
-  - cbn zeta. apply pc_bind; [apply pc_modify; intros w; repeat split|]. intros _. apply pc_bind; [apply pc_log|]. intros _. apply pc_ret.
-  - apply pc_bind; [apply pc_log|]. intros _. apply pc_ret.
+  intros w W. unfold bind at 1, get. cbv beta iota.
+  assert (HL : forall r (x : Z), pc (log CRealloc [id; n] [] r [] 0;> ret x)) by (intros; apply pc_bind; [apply pc_log|intros _; apply pc_ret]).
+  destruct (negb (in_main w)).
+  { assert (P1 : pcpost w (w_with_heap (w_heap w) (w_next_blk w + 1) w)) by (apply pcpost_heap; [exact W|lia]).
+    pose proof (HL (w_next_blk w) (w_next_blk w) _ ltac:(apply P1)) as H2.
+    change ((modify (fun w0 : world => w_with_heap (w_heap w0) (w_next_blk w0 + 1) w0);> log CRealloc [id; n] [] (w_next_blk w) [] 0;> ret (w_next_blk w)) w)
+      with ((log CRealloc [id; n] [] (w_next_blk w) [] 0;> ret (w_next_blk w)) (w_with_heap (w_heap w) (w_next_blk w + 1) w)).
+    destruct ((log CRealloc [id; n] [] (w_next_blk w) [] 0;> ret (w_next_blk w)) (w_with_heap (w_heap w) (w_next_blk w + 1) w)); auto.
+    exact (pcpost_trans _ _ _ P1 H2). }
+  destruct ((id =? 0) || heap_live id w); [|apply HL, W].
+  cbv zeta.
+  set (h := <[w_next_blk w := (true, n)]> (if id =? 0 then w_heap w else <[id := (false, 0)]> (w_heap w))).
+  assert (P1 : pcpost w (w_with_heap h (w_next_blk w + 1) w)) by (apply pcpost_heap; [exact W|lia]).
+  pose proof (HL (w_next_blk w) (w_next_blk w) _ ltac:(apply P1)) as H2.
+  change ((modify (fun w0 : world => w_with_heap (<[w_next_blk w := (true, n)]> (if id =? 0 then w_heap w0 else <[id := (false, 0)]> (w_heap w0))) (w_next_blk w + 1) w0);>
+           log CRealloc [id; n] [] (w_next_blk w) [] 0;> ret (w_next_blk w)) w)
+    with ((log CRealloc [id; n] [] (w_next_blk w) [] 0;> ret (w_next_blk w)) (w_with_heap h (w_next_blk w + 1) w)).
+  destruct ((log CRealloc [id; n] [] (w_next_blk w) [] 0;> ret (w_next_blk w)) (w_with_heap h (w_next_blk w + 1) w)); auto.
+  exact (pcpost_trans _ _ _ P1 H2).
 Qed.
 
 (* blocking: children run, the caller's record stays *)
 Lemma after_block ready tmo w : wf w ->
   let w1 := blocked_world (block_until ready tmo w) in
-  wf w1 /\ w_cur w1 = w_cur w /\ curp w1 = curp w /\ w_trace w1 = w_trace w.
+  wf w1 /\ w_cur w1 = w_cur w /\ curp w1 = curp w /\ w_trace w1 = w_trace w /\ w_next_blk w1 = w_next_blk w.
 Proof.
   intros W. cbn zeta.
   pose proof (keeps_block_until (w_cur w) ready tmo w (wf_lib_at _ W)) as K.
-  pose proof (flat_block_until ready tmo w) as F. unfold flat in F. injection F as Ft Fc _ _ _ _ _ _ _ _.
-  split; [eapply keeps_wf; eassumption|]. split; [exact Fc|]. split; [|exact Ft].
+  pose proof (flat_block_until ready tmo w) as F. unfold flat in F. injection F as Ft Fc _ _ _ _ _ Fb _ _.
+  split; [eapply keeps_wf; eassumption|]. split; [exact Fc|]. split; [|split; [exact Ft|exact Fb]].
   unfold curp. rewrite Fc. apply keeps_get_proc. exact K.
 Qed.
 Lemma pcpost_block ready tmo w : wf w -> pcpost w (blocked_world (block_until ready tmo w)).
 Proof.
-  intros W. destruct (after_block ready tmo w W) as (W1 & C1 & P1 & T1).
-  split; [exact W1|]. split; [exact C1|]. split; [rewrite P1; apply same_caller_refl|]. exists []. exact T1.
+  intros W. destruct (after_block ready tmo w W) as (W1 & C1 & P1 & T1 & B1).
+  split; [exact W1|]. split; [exact C1|]. split; [rewrite P1; apply same_caller_refl|]. split; [exists []; exact T1|rewrite B1; apply Z.le_refl].
 Qed.
 
 Lemma pc_sys_read fd n : pc (sys_read fd n).
@@ -450,7 +489,7 @@ Proof.
   destruct (block_until (pipe_readable q) (-1) w) as [w1|w1|w1|w1]; cbn [blocked_world] in PB; auto.
   destruct (pipe_take n (get_pipe q w1)) as [rs pp].
   assert (P2 : pcpost w1 (set_pipe q pp w1)).
-  { pose proof (pc_modify (set_pipe q pp) ltac:(intros x; repeat split) w1 ltac:(apply PB)) as H2. exact H2. }
+  { pose proof (pc_modify (set_pipe q pp) ltac:(mod_ok) w1 ltac:(apply PB)) as H2. exact H2. }
   assert (H3 : pc (log CRead [fd; n] [] (runs_len rs) [] (w_time w1 - w_time w);> ret (runs_len rs, rs))).
   { apply pc_bind; [apply pc_log|]. intros _. apply pc_ret. }
   specialize (H3 (set_pipe q pp w1) ltac:(apply P2)).
@@ -481,7 +520,7 @@ Proof.
     assert (C2 : w_cur w2 = w_cur w1) by apply cur_upd_proc.
     split; [eapply keeps_wf; [exact W1|exact K2|exact C2]|]. split; [exact C2|].
     split; [unfold curp; rewrite C2, (keeps_get_proc _ _ _ K2); apply same_caller_refl|].
-    exists []. unfold w2, upd_proc. destruct (w_procs w1 !! c); reflexivity. }
+    split; [exists []; apply trace_upd_proc|unfold w2; rewrite blk_upd_proc; apply Z.le_refl]. }
   clearbody w2.
   assert (H3 : pc (log CWaitpid [pid] [] c [Z.of_N st] b;> ret (c, Z.of_N st))) by (apply pc_bind; [apply pc_log|intros _; apply pc_ret]).
   specialize (H3 w2 ltac:(apply P2)).
@@ -592,9 +631,9 @@ Definition same3 (p p' : proc) : Prop := pr_disp p' = pr_disp p /\ pr_cwd p' = p
 Definition pq (w w' : world) : Prop :=
   wf w' /\ w_cur w' = w_cur w /\ same3 (curp w) (curp w') /\ exists l, w_trace w' = l ++ w_trace w.
 Lemma pq_of_pcpost w w' : pcpost w w' -> pq w w'.
-Proof. intros (W & C & (_ & D & Cw & E) & T). split; [exact W|]. split; [exact C|]. split; [repeat split; assumption|exact T]. Qed.
+Proof. intros (W & C & (_ & D & Cw & E) & T & _). split; [exact W|]. split; [exact C|]. split; [repeat split; assumption|exact T]. Qed.
 Lemma pcpost_mask w w' : pcpost w w' -> pr_mask (curp w') = pr_mask (curp w).
-Proof. intros (_ & _ & (M & _) & _). exact M. Qed.
+Proof. intros (_ & _ & (M & _) & _ & _). exact M. Qed.
 Lemma pq_trans w1 w2 w3 : pq w1 w2 -> pq w2 w3 -> pq w1 w3.
 Proof.
   intros (W2 & C2 & (D2 & Cw2 & E2) & l2 & T2) (W3 & C3 & (D3 & Cw3 & E3) & l3 & T3).
@@ -688,7 +727,9 @@ Lemma gets_inv {A} (f : world -> A) w a w' : gets f w = Ret a w' -> a = f w /\ w
 Proof. intros H. injection H as <- <-. auto. Qed.
 
 Lemma sys_fork_spec child w r w' : wf w -> 0 <= w_cur w -> kp (w_cur w) child ->
-  sys_fork child w = Ret r w' -> pcpost w w' /\ (r = -1 \/ 0 < r).
+  sys_fork child w = Ret r w' ->
+  pcpost w w' /\ ((r = -1 /\ 0 < pr_errno (curp w')) \/
+                 (0 < r /\ exists ev l, w_trace w' = ev :: l ++ w_trace w /\ e_call ev = CFork /\ e_ret ev = r /\ e_pid ev = w_cur w)).
 Proof.
   intros W Hpos Hk E. unfold sys_fork in E.
   apply bind_inv in E as (par & wa & Eg & E). apply gets_inv in Eg as [-> ->].
@@ -696,12 +737,12 @@ Proof.
   apply fork_pre_inv in Epre as (f & w0 & Ep & Epre).
   pose proof (pc_prelude w W) as Hp. rewrite Ep in Hp.
   destruct f as [e|].
-  - destruct (fail_val CFork [] [] (Z.pos e) w0 ltac:(apply Hp)) as (w1' & Ef & _).
+  - destruct (fail_val CFork [] [] (Z.pos e) w0 ltac:(apply Hp)) as (w1' & Ef & Ee).
     rewrite Ef in Epre. injection Epre as <- <-.
     pose proof (pc_fail CFork [] [] (Z.pos e) w0 ltac:(apply Hp)) as Hf. rewrite Ef in Hf.
     change (-1 <? 0) with true in E. cbv iota in E. apply ret_inv in E as [-> ->].
-    split; [eapply pcpost_trans; eassumption|left; reflexivity].
-  - destruct Epre as [-> ->]. destruct Hp as (W0 & C0 & S0 & T0).
+    split; [eapply pcpost_trans; eassumption|left; split; [reflexivity|rewrite Ee; lia]].
+  - destruct Epre as [-> ->]. destruct Hp as (W0 & C0 & S0 & T0 & B0).
     assert (Hc : w_cur w0 < w_next_pid w0). { destruct W0 as [(q & Hq & _) Hf]. apply Hf. rewrite Hq. eauto. }
     destruct (Z.ltb_spec (w_next_pid w0) 0); [lia|]. cbv beta in E.
     set (wc := w_with_trace _ (fork_child_world w0)) in E.
@@ -715,21 +756,27 @@ Proof.
     assert (Tc : exists l, w_trace wc = l ++ w_trace w0) by (eexists [_]; reflexivity).
     assert (Lc : lib_at (w_cur w0) wc) by (eapply lib_at_keeps; [apply wf_lib_at, W0|exact Kc]).
     rewrite <- C0 in Hk.
-    pose proof (Hk wc ltac:(rewrite Cc; lia) Lc) as (K3 & C3 & l3 & T3).
+    pose proof (Hk wc ltac:(rewrite Cc; lia) Lc) as (K3 & C3 & B3 & l3 & T3).
     destruct (child wc) as [a w3|w3|w3|y w3]; try discriminate. cbn [oworld] in *.
     unfold fork_post in E. rewrite run_log_ret in E. injection E as <- <-.
-    split; [|right; lia].
+    destruct T0 as [l0 T0]. destruct Tc as [lc Tc].
+    split.
+    2:{ right. split; [lia|]. eexists _, (l3 ++ lc ++ l0). split.
+        - cbn [w_trace w_with_trace w_with_cur]. rewrite T3, Tc, T0, <- !app_assoc. reflexivity.
+        - split; [reflexivity|split; reflexivity]. }
     set (w4 := w_with_cur (w_cur w) w3).
     assert (K4 : keeps (w_cur w0) w0 w4).
     { eapply keeps_trans; [exact Kc|]. eapply keeps_trans; [exact K3|]. apply keeps_same_procs; reflexivity. }
     assert (C4 : w_cur w4 = w_cur w0) by (cbn; congruence).
     assert (W4 : wf w4) by (eapply keeps_wf; eassumption).
-    eapply pcpost_trans; [split; [exact W0|split; [exact C0|split; [exact S0|exact T0]]]|].
+    eapply pcpost_trans; [split; [exact W0|split; [exact C0|split; [exact S0|split; [exists l0; exact T0|exact B0]]]]|].
     split; [apply wf_with_trace, W4|]. split; [exact C4|].
     split.
     + change (curp (w_with_trace ?t ?x)) with (curp x). unfold curp. rewrite C4, (keeps_get_proc _ _ _ K4). apply same_caller_refl.
-    + destruct Tc as [lc Tc]. eexists (_ :: l3 ++ lc). cbn [w_trace w_with_trace]. change (w_trace w4) with (w_trace w3).
-      rewrite T3, Tc, app_assoc. reflexivity.
+    + split.
+      * eexists (_ :: l3 ++ lc). cbn [w_trace w_with_trace]. change (w_trace w4) with (w_trace w3).
+        rewrite T3, Tc, app_assoc. reflexivity.
+      * change (w_next_blk w0 <= w_next_blk w3). change (w_next_blk wc) with (w_next_blk w0) in B3. exact B3.
 Qed.
 
 Lemma pc_run {A} (m : MW A) w a w' : pc m -> wf w -> m w = Ret a w' -> pcpost w w'.
@@ -867,14 +914,14 @@ Proof.
   apply bind_inv in E as (r4 & w4 & E4 & E).
   assert (C3 : w_cur w3 = w_cur w) by apply P03.
   assert (M3 : pr_mask (curp w3) = pr_mask (curp w)) by apply (pcpost_mask _ _ P03).
-  destruct P03 as (W3 & _ & S3 & l3 & T3).
+  destruct P03 as (W3 & _ & S3 & (l3 & T3) & B3).
   assert (Hk3 : kp (w_cur w3) (start_child_part prd pwr argv pg (Some env) o ck)) by (rewrite C3; apply kp_start_child_part, Hk).
   destruct (process_fork_restores _ _ _ _ _ W3 ltac:(rewrite C3; exact Hpos) Hk3 ltac:(rewrite M3; exact Hcanon) E4) as [Q4 R4].
   rewrite M3, T3 in R4.
   assert (R4' : Rst (pr_mask (curp w)) (w_trace w) w4).
   { destruct R4 as [R4|R4]; [left; exact R4|right; eapply sigfail_base; exact R4]. }
   assert (Q04 : pq w w4).
-  { eapply pq_trans; [|exact Q4]. apply pq_of_pcpost. split; [exact W3|]. split; [exact C3|]. split; [exact S3|]. exists l3. exact T3. }
+  { eapply pq_trans; [|exact Q4]. apply pq_of_pcpost. split; [exact W3|]. split; [exact C3|]. split; [exact S3|]. split; [exists l3; exact T3|exact B3]. }
   assert (Hrest : forall w5, pcpost w4 w5 -> pq w w5 /\ Rst (pr_mask (curp w)) (w_trace w) w5).
   { intros w5 P5. split; [eapply pq_pc; eassumption|eapply Rst_pc; eassumption]. }
   destruct (r4 <? 0).
@@ -921,7 +968,7 @@ Proof.
   - destruct (has_bit flags O_CREAT); [|apply pc_fail].
     destruct (fs_lookup _ w0) as [k2|]; [|apply pc_fail].
     destruct k2; try apply pc_fail.
-    apply pc_bind; [|intros _; apply Hmk]. apply pc_modify. intros w. repeat split.
+    apply pc_bind; [|intros _; apply Hmk]. apply pc_modify. mod_ok.
 Qed.
 Lemma pc_pipe_nonblocking p en : pc (pipe_nonblocking p en).
 Proof.
@@ -1001,10 +1048,10 @@ Proof.
   destruct (f_obj d) as [q|q|a|pa a|id a]; try apply pc_fail; try apply pc_done.
   intros w W.
   destruct (write_loop_frame (w_cur w) (Z.to_nat (runs_len data / pipe_atomic) + total_weight w * 2 + 8)%nat q (f_nonblock d) data 0 w (wf_lib_at _ W)) as [K F].
-  unfold flat in F. injection F as Ft Fc _ _ _ _ _ _ _ _.
+  unfold flat in F. injection F as Ft Fc _ _ _ _ _ Fb _ _.
   assert (P1 : pcpost w (wr_world (write_loop (Z.to_nat (runs_len data / pipe_atomic) + total_weight w * 2 + 8)%nat q (f_nonblock d) data 0 w))).
   { split; [eapply keeps_wf; eassumption|]. split; [exact Fc|].
-    split; [unfold curp; rewrite Fc, (keeps_get_proc _ _ _ K); apply same_caller_refl|]. exists []. exact Ft. }
+    split; [unfold curp; rewrite Fc, (keeps_get_proc _ _ _ K); apply same_caller_refl|]. split; [exists []; exact Ft|rewrite Fb; apply Z.le_refl]. }
   destruct (write_loop _ q (f_nonblock d) data 0 w) as [n w1|e w1|w1|w1]; cbn [wr_world] in *; auto.
   - assert (H1 : pc (log CWrite [fd; runs_len data] [] n [] (w_time w1 - w_time w);> ret n)) by (repeat pc_step).
     specialize (H1 w1 ltac:(apply P1)).
